@@ -726,7 +726,7 @@ pub fn cycles<C: Backing>(ctx: &Ctx, rep: &mut Report, seed: usize, max_len: usi
 /// object (stopped early if the deque outgrows 64 live elements: a cycle that only grows meets no
 /// new event), oracle after every op.  The 65 536th occurrence of an event - a slide, a wrap of the
 /// cursor, an increment of a narrow counter - lies within reach.
-pub fn marathon<C: Backing>(ctx: &Ctx, rep: &mut Report, max_len: usize, reps: usize, unit_base: &mut usize) {
+pub fn marathon<C: Backing>(ctx: &Ctx, rep: &mut Report, seed_items: usize, max_len: usize, reps: usize, unit_base: &mut usize) {
     let ops = &OPS;
     let n = ops.len();
     let mut count = 0u64;
@@ -746,7 +746,7 @@ pub fn marathon<C: Backing>(ctx: &Ctx, rep: &mut Report, max_len: usize, reps: u
             }
             count += 1;
             rep.evaluations += 1;
-            let mut st: State<C> = State::new(0);
+            let mut st: State<C> = State::new(seed_items);
             let mut steps = 0usize;
             let mut failure: Option<String> = None;
             'run: for _ in 0..reps {
@@ -765,7 +765,7 @@ pub fn marathon<C: Backing>(ctx: &Ctx, rep: &mut Report, max_len: usize, reps: u
             if let Some(e) = failure {
                 // the artefact names the cycle and the step; replaying it re-runs the marathon
                 let again = {
-                    let mut st: State<C> = State::new(0);
+                    let mut st: State<C> = State::new(seed_items);
                     let mut r: Result<(), String> = Ok(());
                     let mut k = 0usize;
                     'again: for _ in 0..reps {
@@ -783,9 +783,9 @@ pub fn marathon<C: Backing>(ctx: &Ctx, rep: &mut Report, max_len: usize, reps: u
                     machinery_failure(&format!("marathon violation did not reproduce identically: cycle [{}] step {}: {}", render(0, &cycle), steps, e));
                 }
                 rep.violation(Violation {
-                    key: format!("C15:marathon:{}:{}", C::NAME, render(0, &cycle).replace(' ', "")),
-                    summary: format!("SlidingDeque<{}>, cycle [{}] repeated: at step {} (repetition {}): {}", C::NAME, render(0, &cycle), steps, (steps - 1) / len + 1, e),
-                    replay_text: format!("check: sliding-marathon\nbacking: {}\ncycle: {}\nreps: {}\nobserved: step {}: {}\n", C::NAME, render(0, &cycle), reps, steps, e),
+                    key: format!("C15:marathon:{}:{}", C::NAME, render(seed_items, &cycle).replace(' ', "")),
+                    summary: format!("SlidingDeque<{}>, cycle [{}] repeated: at step {} (repetition {}): {}", C::NAME, render(seed_items, &cycle), steps, (steps - 1) / len + 1, e),
+                    replay_text: format!("check: sliding-marathon\nbacking: {}\ncycle: {}\nreps: {}\nobserved: step {}: {}\n", C::NAME, render(seed_items, &cycle), reps, steps, e),
                 });
             }
         }
@@ -795,8 +795,8 @@ pub fn marathon<C: Backing>(ctx: &Ctx, rep: &mut Report, max_len: usize, reps: u
 }
 
 /// Replays a marathon artefact.
-pub fn replay_marathon<C: Backing>(cycle: &[Op], reps: usize) -> Result<(), String> {
-    let mut st: State<C> = State::new(0);
+pub fn replay_marathon<C: Backing>(seed_items: usize, cycle: &[Op], reps: usize) -> Result<(), String> {
+    let mut st: State<C> = State::new(seed_items);
     let mut k = 0usize;
     for _ in 0..reps {
         for op in cycle {
@@ -944,6 +944,8 @@ pub fn run(ctx: &Ctx) -> Report {
     // Every worker computes the (tiny) closure; only worker 0 reports its counts.
     let mut scratch = Report::new();
     let cl = closure(&mut scratch, cap);
+    // (an incomplete closure - one that met violations - cannot vouch for the shapes the DFS reaches)
+    let closure_complete = scratch.violations.is_empty();
     if ctx.owns(0) {
         scratch.evaluations = scratch.transitions;
         rep.merge(scratch);
@@ -953,7 +955,7 @@ pub fn run(ctx: &Ctx) -> Report {
     let depth = ctx.tier.pick(7, 8);
     let mut unit = 0usize;
     // Fresh deque, three backings.
-    dfs::<SpyVec<u32>>(ctx, &mut rep, Some(&cl), cap, 0, depth, &mut unit, &OPS);
+    dfs::<SpyVec<u32>>(ctx, &mut rep, if closure_complete { Some(&cl) } else { None }, cap, 0, depth, &mut unit, &OPS);
     dfs::<Vec<u32>>(ctx, &mut rep, None, cap, 0, depth, &mut unit, &OPS);
     dfs::<SmallVec<[u32; 2]>>(ctx, &mut rep, None, cap, 0, depth, &mut unit, &OPS);
     // the same plus the Clone entry points (clone_from into a deque with history), one level shallower
@@ -961,7 +963,7 @@ pub fn run(ctx: &Ctx) -> Report {
     dfs::<SmallVec<[u32; 2]>>(ctx, &mut rep, None, cap, 0, depth - 1, &mut unit, &OPS_EXT);
     // Non-initial starts: From<container> with 3 and 5 items, one level shallower.
     for seed in [3usize, 5] {
-        dfs::<SpyVec<u32>>(ctx, &mut rep, Some(&cl), cap, seed, depth - 1, &mut unit, &OPS);
+        dfs::<SpyVec<u32>>(ctx, &mut rep, if closure_complete { Some(&cl) } else { None }, cap, seed, depth - 1, &mut unit, &OPS);
         dfs::<SmallVec<[u32; 2]>>(ctx, &mut rep, None, cap, seed, depth - 1, &mut unit, &OPS);
         dfs::<SpyVec<u32>>(ctx, &mut rep, None, cap, seed, depth - 2, &mut unit, &OPS_EXT);
         dfs::<SmallVec<[u32; 2]>>(ctx, &mut rep, None, cap, seed, depth - 2, &mut unit, &OPS_EXT);
@@ -990,9 +992,12 @@ pub fn run(ctx: &Ctx) -> Report {
     cycles::<Vec<u32>>(ctx, &mut rep, 1024, cl_len - 1, cl_reps, &mut unit, &OPS_BIG, false);
     cycles::<SpyVec<u32>>(ctx, &mut rep, 0, cl_len - 1, cl_reps, &mut unit, &OPS_EXT, true);
     cycles::<SmallVec<[u32; 2]>>(ctx, &mut rep, 3, cl_len - 1, cl_reps, &mut unit, &OPS_EXT, true);
-    marathon::<Vec<u32>>(ctx, &mut rep, ctx.tier.pick(2, 3), 70_000, &mut unit);
-    marathon::<SmallVec<[u32; 2]>>(ctx, &mut rep, 2, 70_000, &mut unit);
-    rep.note(format!("C15: marathons: every cycle of 1..={} ops over the 14-op alphabet repeated 70 000 times on one Vec-backed deque (cycles of up to 2 ops on SmallVec), oracle after every op, stopped early once more than 64 elements are live", ctx.tier.pick(2, 3)));
+    marathon::<Vec<u32>>(ctx, &mut rep, 0, ctx.tier.pick(2, 3), 70_000, &mut unit);
+    marathon::<SmallVec<[u32; 2]>>(ctx, &mut rep, 0, 2, 70_000, &mut unit);
+    // a steady state with live elements: every pop_front leaves a consumed prefix behind, every other one slides
+    marathon::<Vec<u32>>(ctx, &mut rep, 3, 2, 70_000, &mut unit);
+    marathon::<Vec<u32>>(ctx, &mut rep, 6, 2, 70_000, &mut unit);
+    rep.note(format!("C15: marathons: every cycle of 1..={} ops over the 14-op alphabet repeated 70 000 times on one Vec-backed deque (cycles of up to 2 ops on SmallVec, and from From<container> starts of 3 and 6 items), oracle after every op, stopped early once more than 64 elements are live", ctx.tier.pick(2, 3)));
     rep.note(format!("C15: periodic unrollings: every cycle of 1..={} ops over the 16-op alphabet repeated {} times on one object (SpyVec, Vec, SmallVec from empty; SmallVec from 3 items and Vec from 1024 items one op shorter), oracle after every op; the same with TWO deques alive and used alternately (the second one op ahead in the cycle), each against its own model", cl_len, cl_reps));
     rep.note(format!("C15: large containers: From<container> with 1024, 1500 and 5000 items (Vec and spilled SmallVec), all sequences to depth {} over {:?}", ctx.tier.pick(4, 5), OPS_BIG.iter().map(|o| o.name()).collect::<Vec<_>>()));
     rep.note(format!("C15: the cloning explorers copy the deque before every op (exactly-fitting capacity, so every push meets a full container); the straight explorer re-executes all histories to depth {} on one object (amortised capacities)", depth - 2));
@@ -1025,13 +1030,13 @@ pub fn replay(text: &str) -> Result<String, String> {
     }
     if field(text, "check") == Some("sliding-marathon") {
         let backing = field(text, "backing").unwrap_or("Vec");
-        let Some((_, cycle)) = field(text, "cycle").and_then(parse_history) else {
+        let Some((seed_items, cycle)) = field(text, "cycle").and_then(parse_history) else {
             machinery_failure("cannot parse marathon cycle");
         };
         let reps: usize = field(text, "reps").and_then(|r| r.parse().ok()).unwrap_or(70_000);
         let r = match backing {
-            "SmallVec2" => replay_marathon::<SmallVec<[u32; 2]>>(&cycle, reps),
-            _ => replay_marathon::<Vec<u32>>(&cycle, reps),
+            "SmallVec2" => replay_marathon::<SmallVec<[u32; 2]>>(seed_items, &cycle, reps),
+            _ => replay_marathon::<Vec<u32>>(seed_items, &cycle, reps),
         };
         return match r {
             Err(e) => Ok(format!("cycle [{}] repeated: {}", render(0, &cycle), e)),
